@@ -8,13 +8,13 @@ TRUSTED = [
     "Lean 4.33.0 kernel; axioms propext, Classical.choice, Quot.sound only (checked per theorem by #print axioms on every run)",
     "hand-written mechanism model SimVerif/HttpProxy.lean of sim::http_proxy (one pure function per callback over checked memory; forward_request's std::string arithmetic as `rewrite`), reusing the parser model SimVerif/Http.lean (C15)",
     "correspondence: simdrv runs the real http_proxy (ASan+UBSan, storage zero-filled) between scripted clients and origins; `simcheck kernel` plugs the model into the world model (Drv/ProxySrv.lean: the proxy's acceptor, two sockets and resolver are ordinary objects of the TCP/resolver models) and must predict every line of the trace: each chunk each side reads, every completion instant, every lookup, the handler counts of run()",
-    "whether a host string is an address literal (boost make_address) is a syntactic test in the driver; generators use canonical literals",
+    "whether a host string is an address literal (boost make_address = glibc inet_pton for either family) is decided in the driver by a transcription of glibc's inet_pton4/inet_pton6 grammar (isAddrLiteral, compared with the C library on 150000 random strings: no difference); scope ids ('%') and NUL bytes in host strings are not generated",
     "the theorems are about one proxy object driven by an abstract reliable byte stream (what C05 provides) and abstract resolver/connect outcomes; the world-level composition is validated by the correspondence, not proved",
 ]
 ASSUME = [
     "the origin named by a session's first request is the origin of the whole session (the proxy supports one server connection; requests pipelined to another host are sent to the first: documented TODO in the source, outside the statement)",
     "headers are compared as a map lower-case name -> trimmed value (the proxy re-emits them from std::map: lower-cased, sorted, duplicates merged); `C18_rewrite` states the emitted bytes literally",
-    "a request after the first whose target starts with http:// but names no valid host:port (empty host, bad port) is forwarded to the session's origin like a request for another host (same TODO): no close is demanded for it; as a FIRST request it must end in nothing-or-one-503 and a close. Port numbers above 65535 that are congruent modulo 65536 to a listening port are kept out of the generator (the library truncates and relays: finding reported; VERIF_C18_PORTWRAP=1 generates them and malformed_closes flags them)",
+    "a request after the first whose target starts with http:// but names no valid host:port (empty host, bad port) is forwarded to the session's origin like a request for another host (same TODO): no close is demanded for it; as a FIRST request it must end in nothing-or-one-503 and a close. A port number above 65535 (also one congruent modulo 65536 to a listening port: F43, repaired in 99bb698) is a malformed request wherever it stands: close, nothing forwarded",
     "a listener on the default port 80 cannot exist in the simulation (ports below 1024 are refused by bind): default-port requests are checked through the address/port the proxy dials (503 vs. relay) and, literally, by the theorem",
     "x.destroy: the object has no destructor of its own; the members' destructors abort what is outstanding and every callback ignores operation_aborted, so destroying at quiescence is safe (a completion that was already posted with success when the object is destroyed would run on freed memory: the scenarios destroy only when the event queue is empty)",
 ]
